@@ -282,6 +282,23 @@ def stripSlice : P String := do
   let t ← node
   pure ("|".intercalate ((stripNode t).elems.map (fun e => s!"{e.tag}:{attrsStr e.attrs}")))
 
+/-- `outputnodes tree atoms` → text ids and element tags `GetOutputNodes` collects -/
+def outputnodesSlice : P String := do
+  let t ← node
+  let A ← atomsP
+  pure s!"{",".intercalate ((outputTextIds A t).map toString)} | {",".intercalate (outputTags A t)}"
+
+/-- `absurl tree n (value abs absSet)*` → attributes of every element after MakeAllLinksAbsolute;
+the table gives, for every attribute value in the tree, what `CreateAbsoluteURL` and the srcset
+rewriting make of it -/
+def absurlSlice : P String := do
+  let t ← node
+  let n ← nat
+  let tbl ← many n (do let v ← str; let a ← str; let b ← str; pure (v, a, b))
+  let abs : String → String := fun v => match tbl.find? (fun e => e.1 == v) with | some e => e.2.1 | none => v
+  let absSet : String → String := fun v => match tbl.find? (fun e => e.1 == v) with | some e => e.2.2 | none => v
+  pure ("|".intercalate ((absNode abs absSet t).elems.map (fun e => s!"{e.tag}:{attrsStr e.attrs}")))
+
 /-- `title markup orig hasH1 h1 headingMatch` → document title and result title -/
 def titleSlice : P String := do
   let markup ← str; let orig ← str; let hasH1 ← bool; let h1 ← str; let hm ← bool
@@ -374,6 +391,8 @@ def dispatch (slice : String) : Option (P String) :=
   | "countwords" => some countWordsSlice
   | "strip" => some stripSlice
   | "title" => some titleSlice
+  | "outputnodes" => some outputnodesSlice
+  | "absurl" => some absurlSlice
   | "pagenum" => some pagenumSlice
   | "prevnext" => some prevnextSlice
   | "pagegroups" => some pagegroupsSlice
